@@ -54,7 +54,10 @@ def enabled(events, maxnest):
             out += [{"k": "ct_add_section", "doc": 0}, {"k": "ct_add_section", "doc": 1, "expectfail": 1},
                     {"k": "ct_add_section", "doc": 1, "impl": "macro"}]
         out += [{"k": "function", "doc": 0, "params": []}, {"k": "if", "doc": 0}]
-    out += [{"k": "add_test", "doc": 1}, {"k": "set", "doc": 0}, {"k": "generic", "doc": 1}]
+    out += [{"k": "add_test", "doc": 1}, {"k": "add_test", "doc": 0}, {"k": "set", "doc": 0}, {"k": "set", "doc": 1},
+            {"k": "generic", "doc": 1}]
+    if inner in ("ct_add_test", "ct_add_section") and len(st) < maxnest:
+        out += [{"k": "ct_add_section", "doc": 0, "name": "same_section"}]      # a section name used more than once
     if st:
         out.append({"k": "close"})
     return out
